@@ -23,6 +23,10 @@ func selftest(args []string) int {
 		only = args[0]
 	}
 	files, _ := filepath.Glob(filepath.Join(verifDir, "selftest", "mutants", "*.patch"))
+	// the changes written by independent sub-agents are part of the corpus too: any violation of
+	// their property counts (their meta.json names the obligation that was seen to fail)
+	seeds, _ := filepath.Glob(filepath.Join(verifDir, "seeded", "*", "patch.diff"))
+	files = append(files, seeds...)
 	sort.Strings(files)
 	self, _ := os.Executable()
 	type result struct {
@@ -43,6 +47,10 @@ func selftest(args []string) int {
 		for _, m := range reMutHdr.FindAllStringSubmatch(string(data), -1) {
 			h[m[1]] = strings.TrimSpace(m[2])
 		}
+		if filepath.Base(f) == "patch.diff" {
+			id := filepath.Base(filepath.Dir(f)) // C11-3
+			h = map[string]string{"property": strings.SplitN(id, "-", 2)[0], "expect": ""}
+		}
 		if only != "" && h["property"] != only {
 			continue
 		}
@@ -52,6 +60,9 @@ func selftest(args []string) int {
 			sem <- struct{}{}
 			defer func() { <-sem }()
 			name := filepath.Base(f)
+			if name == "patch.diff" {
+				name = "seeded/" + filepath.Base(filepath.Dir(f))
+			}
 			scratch, err := os.MkdirTemp("", "gvc-selftest-")
 			if err != nil {
 				mu.Lock()
@@ -76,7 +87,7 @@ func selftest(args []string) int {
 				return
 			}
 			cmd := exec.Command(self, "check", h["property"], "quick")
-			cmd.Env = append(os.Environ(), "VERIF_REPO="+repoCopy, "VERIF_OUT="+filepath.Join(scratch, "out"), "VERIF_DIR="+verifDir, "VERIF_NOBOUNDED="+h["nobounded"])
+			cmd.Env = append(os.Environ(), "VERIF_TIER=quick", "VERIF_REPO="+repoCopy, "VERIF_OUT="+filepath.Join(scratch, "out"), "VERIF_DIR="+verifDir, "VERIF_NOBOUNDED="+h["nobounded"])
 			var out bytes.Buffer
 			cmd.Stdout = &out
 			cmd.Stderr = &out
